@@ -385,16 +385,17 @@ class Monitor:
         return out
 
     def via(self, start, own):
-        seen = []
+        """root cause attribution: the first lower-level monitor that fired during
+        the call (the innermost operator is evaluated, hence judged, first)."""
         for m, ft in self.trail[start:]:
             if m == own:
                 continue
             if ft in ("unbounded_lo_dropped", "unbounded_hi_dropped"):
-                ft = "unbounded_side_dropped"  # only the first failing side is reported per call
-            s = m if not ft else f"{m}:{ft}"
-            if s not in seen:
-                seen.append(s)
-        return sorted(seen)
+                return [f"{m}:unbounded_side_dropped"]
+            if m == "IndexRange.__or__" and ft:
+                return [f"{m}:{ft}"]
+            return [m]
+        return []
 
     def guard(self, fn, *a):
         """run a validation; never lets anything escape into the observed code"""
